@@ -75,9 +75,14 @@ pub struct Script {
 #[derive(Serialize, Deserialize, Clone, Debug)]
 #[serde(tag = "k", rename_all = "snake_case")]
 pub enum Leaf {
-    Req { tag: u32, src: Src },
+    /// l: use the capability API's future (CapabilityContext) instead of the command context's
+    Req { tag: u32, src: Src, #[serde(default, skip_serializing_if = "is_false")] l: bool },
     Next { s: u32 },
     Joinh { h: u32 },
+}
+
+fn is_false(b: &bool) -> bool {
+    !*b
 }
 
 #[derive(Serialize, Deserialize, Clone, Debug)]
@@ -85,8 +90,8 @@ pub enum Leaf {
 pub enum Instr {
     Emit { tag: u32, src: Src },
     Notify { tag: u32, src: Src },
-    Req { tag: u32, src: Src, dst: u32 },
-    Open { tag: u32, src: Src, s: u32 },
+    Req { tag: u32, src: Src, dst: u32, #[serde(default, skip_serializing_if = "is_false")] l: bool },
+    Open { tag: u32, src: Src, s: u32, #[serde(default, skip_serializing_if = "is_false")] l: bool },
     Next { s: u32, dst: u32, #[serde(rename = "else")] els: u32 },
     Goto { pc: u32 },
     Map { f: String, reg: u32 },
@@ -278,11 +283,21 @@ pub struct TaskEnv {
     regs: [u32; 5],
     streams: Vec<Option<SharedStream>>,
     handles: Vec<Option<JH>>,
+    /// the capability context of the app's legacy capability, when hosted by a Core (mixed APIs)
+    lctx: Option<crux_core::capability::CapabilityContext<VOp, Event>>,
 }
 
 impl TaskEnv {
     pub fn new(inst: u32, tid: u32) -> Self {
-        TaskEnv { inst, tid, seq: 0, regs: [0; 5], streams: vec![None, None, None], handles: vec![None; 4] }
+        TaskEnv {
+            inst,
+            tid,
+            seq: 0,
+            regs: [0; 5],
+            streams: vec![None, None, None],
+            handles: vec![None; 4],
+            lctx: crate::app::legacy_ctx(),
+        }
     }
     fn stamp(&mut self) -> [u32; 3] {
         let s = self.seq;
@@ -339,9 +354,13 @@ fn leaf_future(
     leaf: &Leaf,
 ) -> BoxFuture<'static, u32> {
     match leaf {
-        Leaf::Req { tag, src } => {
+        Leaf::Req { tag, src, l } => {
             let op = VOp { o: env.stamp(), tag: *tag, val: env.src(src) };
-            ctx.request_from_shell(op).boxed()
+            if *l {
+                env.lctx.as_ref().expect("no capability context").request_from_shell(op).boxed()
+            } else {
+                ctx.request_from_shell(op).boxed()
+            }
         }
         Leaf::Next { s } => {
             let st = env.streams[*s as usize].clone().expect("stream not open");
@@ -378,18 +397,26 @@ pub fn run_script(
                     ctx.notify_shell(VOp { o: env.stamp(), tag: *tag, val });
                     pc += 1;
                 }
-                Instr::Req { tag, src, dst } => {
+                Instr::Req { tag, src, dst, l } => {
                     let val = env.src(src);
                     let op = VOp { o: env.stamp(), tag: *tag, val };
-                    let v = ctx.request_from_shell(op).await;
+                    let v = if *l {
+                        env.lctx.as_ref().expect("no capability context").request_from_shell(op).await
+                    } else {
+                        ctx.request_from_shell(op).await
+                    };
                     env.regs[*dst as usize] = v;
                     pc += 1;
                 }
-                Instr::Open { tag, src, s } => {
+                Instr::Open { tag, src, s, l } => {
                     let val = env.src(src);
                     let op = VOp { o: env.stamp(), tag: *tag, val };
-                    env.streams[*s as usize] =
-                        Some(Arc::new(Mutex::new(ctx.stream_from_shell(op).boxed())));
+                    let st: BoxStream<'static, u32> = if *l {
+                        env.lctx.as_ref().expect("no capability context").stream_from_shell(op).boxed()
+                    } else {
+                        ctx.stream_from_shell(op).boxed()
+                    };
+                    env.streams[*s as usize] = Some(Arc::new(Mutex::new(st)));
                     pc += 1;
                 }
                 Instr::Next { s, dst, els } => {
